@@ -538,7 +538,7 @@ func doWithWatchdog(w *drv.World, r drv.Req) (drv.Resp, bool) {
 }
 
 func runC09(c *engine.Ctx) {
-	c.Rule = "case = (backend/options, reachable start state, base request of one of 28 routes, <= k deviations where a deviation sets one slot (method, path shape, query parameter, header, declared length, body) to a value of the finite menu); oracle: no panic, the call returns, response is a success or an error status whose body is empty or an <Error><Code> document with the status documented for that code, and afterwards a canary sequence (put/get/list/delete on the same and on another bucket) behaves and untouched data is unchanged; plus, on the fs backends, every route x state with exactly one failing storage operation at every position (no panic, returns, well-formed error, canary afterwards); distinct_nontrivial = distinct (status, code) outcomes x route"
+	c.Rule = "case = (backend/options, reachable start state, base request of one of 30 routes (two of them announced with Expect: 100-continue), <= k deviations where a deviation sets one slot (method, path shape, query parameter, header, declared length, body) to a value of the finite menu); oracle: no panic, the call returns, response is a success or an error status whose body is empty or an <Error><Code> document with the status documented for that code, and afterwards a canary sequence (put/get/list/delete on the same and on another bucket) behaves and untouched data is unchanged; plus, on the fs backends, every route x state with exactly one failing storage operation at every position (no panic, returns, well-formed error, canary afterwards); distinct_nontrivial = distinct (status, code) outcomes x route"
 	c.Assumptions = append(c.Assumptions, "deviation bound k=1 on every route and state (quick) / k=2 on the routing-relevant and route-specific slots (thorough, and quick on the memory backend's stateful routes)", "a 60 s watchdog per request stands in for 'never blocks' (normal latency is ~10 us)")
 	routes := c09Routes()
 	menu := c09Menu()
